@@ -1,10 +1,16 @@
 import PkgProofs.Props.C19.Tables
 import PkgProofs.Props.C19.Unicode
+import PkgProofs.Lemmas.LicModel
 /-!
 # C19 — licence expressions are validated and canonicalised per SPDX
+
+Model: `Lic.canon` (`PkgModel/License.lean`) mirrors `canonicalize_license_expression` step by step.
+Spec: `Spdx.lex`, `Spdx.WF` (a recursive-descent recogniser of the SPDX grammar over the bundled tables)
+and `Spdx.canon` (`PkgModel/Spec/Spdx.lean`), written from the statement.
+All theorems quantify over arbitrary strings of code points (unbounded length and nesting).
 -/
 namespace C19
-open Py Lic
+open Py Lic Spdx LicL LicW LicP LicR LicM
 
 /-- the regenerated tables have the shape the statement and the code both rely on -/
 theorem table_wellformed :
@@ -12,5 +18,43 @@ theorem table_wellformed :
     distinctKeys (keys Gen.SpdxTables.licenses) = true ∧ distinctKeys (keys Gen.SpdxTables.exceptions) = true ∧
     plusClosed Gen.SpdxTables.licenses = true :=
   ⟨licenses_entries_ok, exceptions_entries_ok, licenses_distinct, exceptions_distinct, licenses_plus_closed⟩
+
+/-! ### refinement: the implementation computes the reference semantics, for every input string -/
+
+/-- **model = spec**: `canonicalize_license_expression(s)` returns the SPDX canonical form of `s` when `s`
+is a well-formed SPDX expression over the bundled tables, and raises `InvalidLicenseExpression` otherwise. -/
+theorem canon_eq_spec (s : Str) : Lic.canon s = Spdx.canon (Spdx.lex s) := by
+  unfold Lic.canon
+  by_cases he : s = []
+  · subst he; rfl
+  · have hne : s.isEmpty = false := by cases s <;> simp_all
+    simp only [hne, Bool.false_eq_true, if_false]
+    rw [split_lower, lex_eq]
+    have hok := split_pad_ok s
+    generalize split (pad s) = ws at hok
+    have hpass := passes_eq ws hok 0 .lp none rfl
+    unfold canonT Spdx.canon
+    rw [WF_eq_goC, ← hpass]
+    cases hst : structGo (ws.map lowerStr) 0 .lp with
+    | false => simp
+    | true =>
+      simp only [Bool.not_true, Bool.false_eq_true, if_false, Bool.true_and]
+      cases hn : normGo (ws.zip (ws.map lowerStr)) none with
+      | none => simp
+      | some r =>
+        have h1 := norm_eq ws hok none false rfl r hn
+        have h2 := norm_ok ws hok none r hn
+        simp only [Option.map_some, Option.isSome_some, if_true, ← h1]
+        rw [tighten_join r (fun x hx => wordOK_ctok (h2 x hx))]
+
+/-- accepted ⇔ well-formed SPDX (the full statement; no excluded class) -/
+theorem accepts_iff_spdx_wf (s : Str) : Lic.accepts s = Spdx.WF (Spdx.lex s) := by
+  unfold Lic.accepts
+  rw [canon_eq_spec]
+  unfold Spdx.canon
+  cases Spdx.WF (Spdx.lex s) <;> rfl
+
+example : Lic.accepts [40, 40, 77, 73, 84, 41, 41] = true := by decide +kernel          -- "((MIT))"
+example : Lic.accepts [77, 73, 84, 32, 65, 78, 68, 32, 40, 41] = false := by decide +kernel   -- "MIT AND ()"
 
 end C19
